@@ -78,6 +78,7 @@ func runC14(c *Collector, r *Rng, thorough bool) {
 	}
 	lzCount := map[string]int{}
 	var lastPubKey *cose.Key // the decoded public COSE_Key of the last pubHalf call
+	var b0pub []byte         // the serialisation MarshalCBOR returned for it (kept by the caller, not copied)
 	pubHalf := func(class string, pubk *ecdsa.PublicKey, rep map[string]any) bool {
 		size := (pubk.Curve.Params().BitSize + 7) / 8
 		op, obs, k, err, p := execKeyFromPub(pubk)
@@ -96,6 +97,8 @@ func runC14(c *Collector, r *Rng, thorough bool) {
 			c.Fail("C14/marshal-refused", "MarshalCBOR refused: "+merr.Error(), rep)
 			return false
 		}
+		c14Hold(c, b)
+		b0pub = b
 		if lx, ly := coordLen(b, -2), coordLen(b, -3); lx != size || ly != size {
 			key := "C14/coordinate-width"
 			if pubk.X.Sign() == 0 || pubk.Y.Sign() == 0 {
@@ -178,6 +181,11 @@ func runC14(c *Collector, r *Rng, thorough bool) {
 		if merr != nil {
 			c.Fail("C14/marshal-refused", "MarshalCBOR refused: "+merr.Error(), rep)
 			return
+		}
+		c14Hold(c, bp)
+		// both halves serialised, then parsed: the first serialisation is still the first key
+		if first := decodeKind("DKey", b0pub); first.err != nil || first.key == nil {
+			c.Fail("C14/unmarshal-refused", fmt.Sprintf("the public half serialised before the private half no longer parses after the private half was serialised: %v", first.err), rep)
 		}
 		dp := decodeCase(c, "unmarshal-private/"+class, "DKey", bp)
 		if dp.err != nil || dp.paniced {
@@ -328,6 +336,23 @@ func runC14(c *Collector, r *Rng, thorough bool) {
 				}
 			}
 		}
+	}
+}
+
+// serialisations a caller keeps while it serialises other keys: they never change
+var c14Held []struct{ out, copy []byte }
+
+func c14Hold(c *Collector, out []byte) {
+	for _, h := range c14Held {
+		if !bytes.Equal(h.out, h.copy) {
+			c.Fail("C14/earlier-serialisation-changed", fmt.Sprintf("bytes returned by an earlier Key.MarshalCBOR changed while other keys were serialised: were %x, now %x", trimTo(h.copy, 48), trimTo(h.out, 48)), map[string]any{"len": len(h.out)})
+			c14Held = nil
+			break
+		}
+	}
+	c14Held = append(c14Held, struct{ out, copy []byte }{out, append([]byte{}, out...)})
+	if len(c14Held) > 32 {
+		c14Held = c14Held[1:]
 	}
 }
 
@@ -751,6 +776,8 @@ func runC17(c *Collector, r *Rng, thorough bool) {
 	for _, b := range rsaBits {
 		k := rsaKey(b)
 		keysC = append(keysC, keyCase{fmt.Sprintf("RSA-%d", b), k, &k.PublicKey, fmt.Sprintf("(KRSA %d)", b), fmt.Sprintf("(KRSA %d)", b), "rsa", b})
+		// the same key behind a crypto.Signer that is not *rsa.PrivateKey (HSM / KMS adapter): same verdicts
+		keysC = append(keysC, keyCase{fmt.Sprintf("RSA-%d-wrapped", b), foreignSigner{&k.PublicKey}, &k.PublicKey, fmt.Sprintf("(KRSA %d)", b), fmt.Sprintf("(KRSA %d)", b), "rsa", b})
 	}
 	for _, cv := range []elliptic.Curve{elliptic.P224(), elliptic.P256(), elliptic.P384(), elliptic.P521()} {
 		k, _ := ecdsa.GenerateKey(cv, kr)
@@ -763,6 +790,12 @@ func runC17(c *Collector, r *Rng, thorough bool) {
 		keysC = append(keysC, keyCase{"ECDSA-off-curve", foreignSigner{off}, off, "(KECDSA false)", "(KECDSA false)", "ecdsa", 0})
 		inf := &ecdsa.PublicKey{Curve: elliptic.P256(), X: big.NewInt(0), Y: big.NewInt(0)}
 		keysC = append(keysC, keyCase{"ECDSA-infinity", foreignSigner{inf}, inf, "(KECDSA false)", "(KECDSA false)", "ecdsa", 0})
+		// coordinates of a valid point with the sign flipped: not a point of the curve
+		for ni, neg := range []*ecdsa.PublicKey{
+			{Curve: elliptic.P256(), X: new(big.Int).Neg(k.X), Y: k.Y}, {Curve: elliptic.P256(), X: k.X, Y: new(big.Int).Neg(k.Y)}, {Curve: elliptic.P256(), X: new(big.Int).Neg(k.X), Y: new(big.Int).Neg(k.Y)},
+			{Curve: elliptic.P256(), X: new(big.Int).Add(k.X, elliptic.P256().Params().P), Y: k.Y}} {
+			keysC = append(keysC, keyCase{fmt.Sprintf("ECDSA-negative-or-unreduced-%d", ni), foreignSigner{neg}, neg, "(KECDSA false)", "(KECDSA false)", "ecdsa", 0})
+		}
 		// a crypto.Signer that is not *ecdsa.PrivateKey but has an ECDSA public key
 		keysC = append(keysC, keyCase{"ECDSA-P-256-wrapped", foreignSigner{&k.PublicKey}, &k.PublicKey, "(KECDSA true)", "(KECDSA true)", "ecdsa", 0})
 	}
